@@ -20,11 +20,12 @@ LEVEL = "exploration"
 QUICK_RUNS = 3200
 RULE = ("Each run: Radius or KNearest over a drawn context-free or linear policy; contexts on the integer grid [-3,3]^d, "
         "metric in {cityblock, chebyshev, sqeuclidean, euclidean}; radius drawn from the realised query-to-row distances "
-        "(boundary rows included), k up to the number of stored rows; history fit + partial_fit* with restarts; queries "
+        "(boundary rows included), k up to the number of stored rows; history fit + partial_fit* with restarts and, in a "
+        "third of the runs, add_arm / remove_arm between the chunks (rows of a removed arm stay stored observations); queries "
         "equal to stored rows, on the boundary and far away (empty neighbourhood), answered under seeded worker "
         "schedules and random partitions.")
 EXPECTED_PROBES = ["probe.row_exactly_on_radius", "probe.empty_neighbourhood", "probe.kth_distance_tie",
-                   "probe.after_partial_fit", "fault.partition_random", "fault.restart"]
+                   "probe.after_partial_fit", "fault.partition_random", "fault.restart", "probe.removed_arm_has_stored_rows"]
 INT32MAX = np.iinfo(np.int32).max
 
 
@@ -45,31 +46,49 @@ def generate(rnd, tier, index=0):
     metric = rnd.choice(gen.METRICS_EXACT)
     rk = "binary" if lp[0] == "ThompsonSampling" else ("nonneg" if lp[0] == "Popularity" else rnd.choice(["binary",
                                                                                                          "smallint", "dyadic"]))
-    chunks = [gen.gen_rows(rnd, arms, rnd.randint(2, 12), d, "exact", rk, True, omit=gen.some_omitted(rnd, arms))
-              for _ in range(rnd.randint(1, 3))]
-    stored = [r[2] for c in chunks for r in c]
-    ops = []
-    for i, c in enumerate(chunks):
+    # arm changes between the chunks (a third of the runs): removing an arm must not remove its rows from the stored
+    # observations ("all rows passed to fit and to every later partial_fit"), an added arm gets rows in later chunks
+    arm_changes = rnd.random() < 0.35
+    cur = list(arms)
+    spare = list(spare)
+    chunks, stored, ops = [], [], []
+    for i in range(rnd.randint(1, 3)):
+        c = gen.gen_rows(rnd, cur, rnd.randint(2, 12), d, "exact", rk, True, omit=gen.some_omitted(rnd, cur))
+        chunks.append(c)
+        stored += [r[2] for r in c]
         ops.append({"op": "fit" if i == 0 else "partial_fit", "rows": c})
-        Q = []
-        for _ in range(rnd.randint(1, 5)):
-            u = rnd.random()
-            if u < 0.3:
-                Q.append(list(rnd.choice(stored[:sum(len(x) for x in chunks[:i + 1])])))
-            elif u < 0.5:
-                Q.append([rnd.choice([-9, 9, 12]) for _ in range(d)])      # far away
-            else:
-                Q.append(gen.gen_ctx(rnd, d, "exact"))
-        ops.append({"op": rnd.choice(["expect", "predict"]), "Q": Q, "sched": kernel.Sched.draw(rnd)})
+
+        def query():
+            Q = []
+            for _ in range(rnd.randint(1, 5)):
+                u = rnd.random()
+                if u < 0.3:
+                    Q.append(list(rnd.choice(stored)))
+                elif u < 0.5:
+                    Q.append([rnd.choice([-9, 9, 12]) for _ in range(d)])      # far away
+                else:
+                    Q.append(gen.gen_ctx(rnd, d, "exact"))
+            return {"op": rnd.choice(["expect", "predict"]), "Q": Q, "sched": kernel.Sched.draw(rnd)}
+        ops.append(query())
         if rnd.random() < 0.3:
             ops.append({"op": "restart", "how": rnd.choice(["deepcopy", "p3", "p5"])})
+        if arm_changes and rnd.random() < 0.7:
+            if spare and (len(cur) <= 2 or rnd.random() < 0.4):
+                a = spare.pop(rnd.randrange(len(spare)))
+                cur.append(a)
+                ops.append({"op": "add_arm", "arm": a})
+            elif len(cur) > 2:
+                a = cur.pop(rnd.randrange(len(cur)))
+                spare.append(a)
+                ops.append({"op": "remove_arm", "arm": a})
+            ops.append(query())
     if rnd.random() < 0.5:
         # radius on a realised distance between a stored row and a query row
         qs = [q for o in ops if o["op"] in ("expect", "predict") for q in o["Q"]]
         cand = sorted({int_distance(metric, s, q) for s in stored for q in qs if int_distance(metric, s, q) > 0})
         radius = rnd.choice(cand[:6]) if cand else 1
         np_ = ["Radius", {"radius": radius, "metric": metric}]
-        if rnd.random() < 0.4:
+        if rnd.random() < 0.4 and not arm_changes:
             np_[1]["no_nhood_prob_of_arm"] = gen.gen_probs(rnd, len(arms))
     else:
         np_ = ["KNearest", {"k": rnd.randint(1, max(1, min(6, len(chunks[0])))), "metric": metric}]
@@ -114,6 +133,16 @@ def execute(case, ctx):
         if kind == "restart":
             P = P.clone(op["how"])
             ctx.fired("fault.restart")
+            continue
+        if kind in ("add_arm", "remove_arm"):
+            r = P.apply(op)
+            if r[0] == "ok":
+                ctx.fired("fault.arm_change")
+                if kind == "remove_arm" and any(h[0] == op["arm"] for h in hist):
+                    ctx.fired("probe.removed_arm_has_stored_rows")
+            elif r[0] == "exc":
+                ctx.violate("valid-arm-change-raised", step, {"exc": r[1], "op": kind})
+                return
             continue
         if kind in ("fit", "partial_fit"):
             rows = P.valid_rows(op["rows"])
